@@ -231,6 +231,8 @@ def run_edits(ctx, seeds, gens):
 
     def tyname(cls, inside):
         ps = gens[cls]
+        if gens[inside] and trng.random() < 0.15:
+            return trng.choice(gens[inside])             # a bare type parameter of the enclosing class
         if not ps:
             return cls
         pool = ["int", "string", "Plain", "Box<int>"] + list(gens[inside])
@@ -263,7 +265,13 @@ def run_edits(ctx, seeds, gens):
     for ti in range(ctx.n(250, 5000)):
         parts = []
         for cls, ps in gens.items():
-            head = "class %s%s {" % (cls, "<%s>" % ", ".join(ps) if ps else "")
+            def bound(pn):
+                k = trng.random()
+                if k < 0.55:
+                    return pn
+                b = trng.choice(["Plain", pn, trng.choice(ps), "Box<%s>" % pn, "Box<int>", "Pair<%s, %s>" % (pn, pn), "Nope"])
+                return "%s extends %s" % (pn, b)
+            head = "class %s%s {" % (cls, "<%s>" % ", ".join(bound(x) for x in ps) if ps else "")
             self_t = "%s%s" % (cls, "<%s>" % ", ".join(ps) if ps else "")
             body = ["    public constructor() -> %s = default;" % self_t]
             for mi in range(trng.randint(1, 3)):
